@@ -130,6 +130,7 @@ def _(self: Ref['mqtt.pdu.PUBCOMP'], packet: Bytes, id: int):
 @contract('mqtt.pdu.PUBCOMP.decode', props=['C16'])
 def _(self: Ref['mqtt.pdu.PUBCOMP'], packet: Bytes):
     raises(IndexError, when=len(body(packet)) < 2)
+    ensures_raise(unchanged(self.msgId))
     modifies(self.encoded, self.msgId)
     ensures(len(body(packet)) >= 2)
     ensures(self.msgId == body(packet)[0] * 256 + body(packet)[1])
